@@ -34,9 +34,13 @@ pub fn type_case(ctx: &mut Ctx, src: &str) {
         ctx.fail(key, src, &format!("no error, tree {}", p.sexpr));
     }
     if ok { ctx.nontrivial(src); }
+    // (audit G1) second, independent reference: the spec recogniser over the reference lexer's tokens
+    let spec = crate::gramspec::spec_type(src);
+    if ok && !spec { ctx.fail("type-accepts-non-type", src, &format!("no error, but the reference grammar does not read the whole input as one Type; tree {}", p.sexpr)); }
+    if spec != is_one_type(src) { ctx.fail("reference-oracles-disagree", src, &format!("spec_type={spec} is_one_type={}", !spec)); }
     // compiler wrapper
     let c = crate::util::catch(|| apollo_compiler::ast::Type::parse(src, "t.graphql").is_ok());
-    match c { Ok(cok) => if cok && !is_one_type(src) { ctx.fail("type-trailing-tokens-ignored", &format!("ast::Type::parse({src:?})"), "Ok"); }, Err(m) => ctx.fail("parse-type-panic", src, &m) }
+    match c { Ok(cok) => if cok && !(is_one_type(src) && spec) { ctx.fail("type-trailing-tokens-ignored", &format!("ast::Type::parse({src:?})"), "Ok"); }, Err(m) => ctx.fail("parse-type-panic", src, &m) }
 }
 
 /// is the whole input one selection set (with or without braces)?  Uses the document parser as the
@@ -44,7 +48,8 @@ pub fn type_case(ctx: &mut Ctx, src: &str) {
 fn is_one_selection_set(src: &str) -> bool {
     let Some(t) = sig_tokens(src) else { return false };
     if t.is_empty() { return false; }
-    let braced = if t[0].0 == T::LCurly { src.to_string() } else { format!("{{{src}}}") };
+    // (the closing brace goes on a line of its own: the input may end in a comment)
+    let braced = if t[0].0 == T::LCurly { src.to_string() } else { format!("{{{src}\n}}") };
     let Ok(p) = run_parser("doc", None, 500, &braced) else { return false };
     if !p.errors.is_empty() { return false; }
     // exactly one definition, which is an anonymous operation = the selection set
@@ -57,17 +62,24 @@ pub fn sel_case(ctx: &mut Ctx, src: &str) {
     let r = case(ctx, "sel", None, 500, src);
     let Ok(p) = r else { ctx.fail("parse-selection-set-panic", src, "panic"); return };
     let ok = p.errors.is_empty();
-    if ok && !is_one_selection_set(src) { ctx.fail("field-set-trailing-tokens-ignored", src, &format!("no error, tree {}", p.sexpr)); }
+    let one = is_one_selection_set(src);
+    if ok && !one { ctx.fail("field-set-trailing-tokens-ignored", src, &format!("no error, tree {}", p.sexpr)); }
     if ok { ctx.nontrivial(src); }
-    // compiler wrapper: FieldSet::parse must not accept what is not exactly one selection set (whatever it does to the
-    // text before handing it to the parser)
-    thread_local! { static SCHEMA: apollo_compiler::validation::Valid<apollo_compiler::Schema> = apollo_compiler::Schema::parse_and_validate(
-        "directive @d on FIELD | INLINE_FRAGMENT  interface T { a: Query b(x: Int): Query c: Query }  type Query implements T { a: Query b(x: Int): Query c: Query }", "s.graphql").unwrap(); }
-    let c = crate::util::catch(|| SCHEMA.with(|sc| apollo_compiler::executable::FieldSet::parse(sc, apollo_compiler::name!("Query"), src, "f.graphql").is_ok()));
+    // (audit G1) second, independent reference: the spec recogniser (does not run the parser under test)
+    let spec = crate::gramspec::spec_field_set(src);
+    if ok && !spec { ctx.fail("field-set-accepts-non-selection-set", src, &format!("no error, but the reference grammar does not read the whole input as one selection set; tree {}", p.sexpr)); }
+    if spec != one { ctx.fail("reference-oracles-disagree", src, &format!("spec_field_set={spec} document-parser reference={one}")); }
+    // (audit G1) the compiler wrapper: FieldSet::parse reports Ok only for one whole selection set (every field used here exists in the schema,
+    // so a build error can only make it stricter)
+    let c = crate::util::catch(|| SCHEMA.with(|s| apollo_compiler::executable::FieldSet::parse(s, apollo_compiler::name!("Query"), src, "f.graphql").is_ok()));
     match c {
-        Ok(cok) => { if cok && !is_one_selection_set(src) { ctx.fail("field-set-trailing-tokens-ignored", &format!("FieldSet::parse({src:?})"), "Ok"); } if cok { ctx.stat("fieldset_compiler_ok"); } }
+        Ok(cok) => { if cok && !(one && spec) { ctx.fail("field-set-trailing-tokens-ignored", &format!("FieldSet::parse({src:?})"), "Ok"); } if cok { ctx.stat("fieldset_compiler_ok"); } else { ctx.stat("fieldset_compiler_err"); } }
         Err(m) => ctx.fail("parse-selection-set-panic", &format!("FieldSet::parse({src:?})"), &m),
     }
+}
+thread_local! {
+    static SCHEMA: apollo_compiler::validation::Valid<apollo_compiler::Schema> = apollo_compiler::Schema::parse_and_validate(
+        "directive @d(x: Int) repeatable on FIELD | INLINE_FRAGMENT | FRAGMENT_SPREAD type Query implements T { a(x: Int): Query b(x: Int): Query c: Int on: Query x: Int g: Int f0: Query f1: Query f2: Query } interface T { a(x: Int): Query b(x: Int): Query }", "s.graphql").unwrap();
 }
 
 pub fn run(ctx: &mut Ctx) {
@@ -108,4 +120,32 @@ pub fn run(ctx: &mut Ctx) {
     let mut sfix = vec![];
     token_seqs(&["a", "{", "}", ":", "1", "..."], 2, |s| sfix.push(s.to_string()));
     for c in sconstructs { for pre in &sfix { for suf in &sfix { sel_case(ctx, &format!("{pre} {c} {suf}")); } } }
+
+    // ---- (audit G1) ----
+    // a token of EVERY kind (every punctuator, name, int, float, string, block string, lexer error) and every ignored token, before and after
+    // every construct, glued and spaced
+    let every_token = ["!", "$", "&", "(", ")", "...", ":", "=", "@", "[", "]", "{", "}", "|", "a", "on", "1", "-0", "1.5", "1e3", "\"s\"", "\"\"", "\"\"\"b\"\"\"", "é", "\"", "..", "1.", "\u{1}",
+        " ", ",", "\n", "\r\n", "\t", "\u{feff}", "#c", "#c\n", "# é"];
+    let mut n = 0u64;
+    for c in ["A", "A!", "[A]", "[A!]!", "[[b]]", "[A", "A]"] { for t in every_token { for s in [format!("{c}{t}"), format!("{c} {t}"), format!("{t}{c}"), format!("{t} {c}"), format!("{c} {t} {c}")] { type_case(ctx, &s); n += 1; } } }
+    for c in ["a", "{ a }", "a { b }", "{ a ... on T { b } }", "a: b(x: 1) @d", "...F", "{ a", "a }"] { for t in every_token { for s in [format!("{c}{t}"), format!("{c} {t}"), format!("{t}{c}"), format!("{t} {c}"), format!("{c} {t} {c}")] { sel_case(ctx, &s); n += 1; } } }
+    ctx.stat_n("family:every-token-kind-around-construct", n);
+    // short strings over alphabets with comments, strings, lexer errors and the BOM
+    let mut xs = vec![];
+    for_all_strings(&["A", "[", "]", "!", " ", "#c\n", "é", "\u{feff}", "\"s\""], if ctx.thorough { 5 } else { 4 }, |s| xs.push(s.to_string()));
+    for s in &xs { type_case(ctx, s); }
+    let mut ys = vec![];
+    token_seqs(&["{", "}", "a", "#c\n", "é", "\"s\"", "$v", "[", "!"], if ctx.thorough { 5 } else { 4 }, |s| ys.push(s.to_string()));
+    for s in &ys { sel_case(ctx, s); }
+    ctx.stat_n("family:alphabets-with-ignored-and-invalid", (xs.len() + ys.len()) as u64);
+    // generated constructs (deeper, with arguments, directives, fragments) × every short prefix / suffix
+    let mut cov = std::collections::BTreeMap::new();
+    let nc = if ctx.thorough { 400 } else { 50 };
+    for i in 0..nc {
+        let (sel, ty) = { let mut g = crate::gen::G { r: &mut ctx.rng, depth: 0, cov: &mut cov }; (g.selection_set(0), g.ty(0)) };
+        let sel = if i % 2 == 0 { sel } else { sel[1..sel.len() - 1].to_string() };
+        for f in &sfix { sel_case(ctx, &format!("{sel} {f}")); sel_case(ctx, &format!("{f} {sel}")); }
+        for f in &fixes { type_case(ctx, &format!("{ty} {f}")); type_case(ctx, &format!("{f} {ty}")); }
+    }
+    ctx.stat_n("family:generated-construct-x-fix", (nc * 2 * (sfix.len() + fixes.len())) as u64);
 }
